@@ -934,6 +934,74 @@ func c03ReplyHooks(dotu bool, maxpend, P int) Scenario {
 	return vsScenario(&VsSpec{Name: name, Body: body, Check: check, P: P})
 }
 
+// c03ReadsWhileWriterBlocked: a client may send many requests before it reads a reply
+// (over a transport without buffering it cannot even finish sending them unless the
+// server takes them in). While the server's writer is blocked on the first reply, the
+// server still reads every request sent - flushes among them - and once the client
+// reads, every request has its reply.
+func c03ReadsWhileWriterBlocked(dotu bool, maxpend int) Scenario {
+	name := fmt.Sprintf("requests and flushes sent while the writer is blocked are all taken in maxpend=%d dotu=%v", maxpend, dotu)
+	return Scenario{Name: name, Run: func(rc *RunCtx) *Result {
+		res := &Result{Exhaustive: true}
+		var fail string
+		body := func() {
+			s := newSess(SrvOpt{Msize: 256, Dotu: dotu, Maxpend: maxpend})
+			n0 := len(s.c.Collect())
+			base := s.c.SrvEnd.ReadOffset()
+			s.c.SrvEnd.StallOutgoing()
+			msgs := []*wire.Msg{
+				{Type: wire.Tstat, Tag: 10, Fid: 0},
+				{Type: wire.Tflush, Tag: 11, Oldtag: 900},
+				{Type: wire.Tflush, Tag: 12, Oldtag: 901},
+				{Type: wire.Tstat, Tag: 13, Fid: 0},
+				{Type: wire.Tflush, Tag: 14, Oldtag: 10},
+				twalk(15, 0, 3, "d"),
+				{Type: wire.Tflush, Tag: 16, Oldtag: 902},
+				{Type: wire.Tstat, Tag: 17, Fid: 0},
+			}
+			total := 0
+			for _, m := range msgs {
+				total += len(wire.Encode(m, dotu))
+				s.c.Send(dotu, m)
+				vs.Idle()
+			}
+			if got := s.c.SrvEnd.ReadOffset() - base; got != total {
+				fail = fmt.Sprintf("the client sent %d requests (%d bytes) without reading a reply; with its writer blocked the server took in only %d bytes - over a transport that does not buffer, the client could not finish sending", len(msgs), total, got)
+			}
+			s.c.SrvEnd.UnstallOutgoing()
+			vs.Idle()
+			cnt := map[uint16]int{}
+			for _, f := range s.c.Collect()[n0:] {
+				if f.Msg != nil {
+					cnt[f.Msg.Tag]++
+				}
+			}
+			for _, m := range msgs {
+				if m.Tag == 10 {
+					continue // flushed by tag 14: answered or not
+				}
+				if cnt[m.Tag] != 1 && fail == "" {
+					fail = fmt.Sprintf("%s got %d replies once the client read again", m, cnt[m.Tag])
+				}
+			}
+		}
+		x := vs.Run(nil, body, vs.Options{Horizon: 100000000})
+		res.Evals++
+		res.Nontrivial++
+		res.States++
+		res.Traces++
+		if len(x.Panics) > 0 {
+			fail = "panic: " + x.Panics[0].Value
+		} else if len(x.Fails) > 0 && fail == "" {
+			fail = "harness: " + x.Fails[0]
+		}
+		if fail != "" {
+			res.Findings = append(res.Findings, Finding{Sig: "C03/reads-while-writer-blocked/" + sigWords(fail), Msg: name + ": " + fail})
+		}
+		return res
+	}}
+}
+
 // c03BurstBehindStalledWriter: n large replies (more than 64 KiB in all) become ready
 // while the writer cannot write; then it can. Each request gets exactly one reply, its
 // own (a writer that gathers replies must not send any of them twice).
@@ -1001,6 +1069,7 @@ func c03BurstBehindStalledWriter(n int, count uint32, maxpend int, dotu bool) Sc
 func c03Scenarios(tier string) []Scenario {
 	var out []Scenario
 	out = append(out, c03ReplyHooks(false, 0, 1), c03ReplyHooks(true, 2, 0))
+	out = append(out, c03ReadsWhileWriterBlocked(false, 0), c03ReadsWhileWriterBlocked(true, 1), c03ReadsWhileWriterBlocked(false, 4))
 	out = append(out, c03BurstBehindStalledWriter(12, 8000, 0, false), c03BurstBehindStalledWriter(20, 8192, 2, true), c03BurstBehindStalledWriter(70, 1000, 1, false))
 	out = append(out, c03AcrossVersion(false, 0, 1), c03AcrossVersion(true, 2, 1))
 	// Tflush is a request too: flushes of flushes are each owed exactly one reply
